@@ -4,6 +4,8 @@
 
 package geometry
 
+import "math"
+
 type Rect struct {
 	Min, Max Point
 }
@@ -24,7 +26,17 @@ func (rect Rect) Clockwise() bool {
 }
 
 func (rect Rect) Center() Point {
-	return Point{(rect.Max.X + rect.Min.X) / 2, (rect.Max.Y + rect.Min.Y) / 2}
+	return Point{midpoint(rect.Min.X, rect.Max.X), midpoint(rect.Min.Y, rect.Max.Y)}
+}
+
+// midpoint returns (a+b)/2. When the sum overflows although both values are
+// finite, the halves are added instead.
+func midpoint(a, b float64) float64 {
+	m := (a + b) / 2
+	if math.IsInf(m, 0) && !math.IsInf(a, 0) && !math.IsInf(b, 0) {
+		m = a/2 + b/2
+	}
+	return m
 }
 
 func (rect Rect) Area() float64 {
